@@ -12,6 +12,7 @@ import (
 const (
 	FamWire     = "wire"     // dependency graphs, no substitution
 	FamByName   = "byname"   // wire with many by-name points, more of them unsatisfiable
+	FamLarge    = "large"    // wire with 20-120 types / up to some hundred components (thorough tier)
 	FamSubst    = "subst"    // wire + substituting post-processors
 	FamLife     = "life"     // observing processors, runners, lazy components
 	FamClose    = "close"    // closers
@@ -110,6 +111,13 @@ func Generate(seed uint64, id, family string) *sdl.Program {
 	switch family {
 	case FamWire:
 		return genGraph(r, seed, id, family, wireKnobs(r))
+	case FamLarge:
+		k := wireKnobs(r)
+		k.MinTypes, k.MaxTypes = 20, 120
+		k.MaxInstPerType = r.n(1, 3)
+		k.PSatisfiable, k.PDup = 1, 0
+		k.MaxPoints = 3
+		return genGraph(r, seed, id, FamWire, k)
 	case FamByName:
 		k := wireKnobs(r)
 		k.PByName, k.PFunc, k.PSatisfiable, k.POptional = 0.6, 0.05, 0.75, 0.4
